@@ -18,6 +18,7 @@ Line-protocol driver for the C17 models (model files + the generated option tabl
   S <ini|toml> <p1+p2:k=v,…>/<p3:k=v,…>/… → the `per_module_options` table of that config file: `pat:k=v,…;pat:…`
   L <0|1>,<0|1>,…                         → per section of a config file ([mypy] first): does it say `strict = True`;
                                             answer `1` when the strict assignments reach the *global* options
+  V <seps>|<home>|<value>                 → `convPathList (expandUser home) seps value`, entries joined by `|` (`¶` = newline)
   F                                       → obligations with the flags/options that violate them
   E                                       → the hand-written exemption lists of Model/ConfigTable.lean
 -/
@@ -199,6 +200,13 @@ def cmdL (arg : Str) : String :=
   -- did the strict assignments reach the global object?
   b2s (Gen.Options.strictFlags.any (fun d => o.get d.1 != g.get d.1))
 
+def cmdV (arg : Str) : String :=
+  match splitC '|' arg with
+  | seps :: home :: rest =>
+    let value := (("|".toList).intercalate rest).map (fun c => if c == '¶' then '\n' else c)
+    "|".intercalate ((convPathList (expandUser home) seps value).map str)
+  | _ => "bad-op"
+
 def cmdE : String :=
   let one (name : String) (xs : List Str) : String := s!"{name}:[" ++ ",".intercalate (xs.map str) ++ "]"
   " ".intercalate [
@@ -223,6 +231,7 @@ def step (line : String) : String :=
   | 'M' :: ' ' :: r => cmdM r
   | 'P' :: ' ' :: r => cmdP r
   | 'S' :: ' ' :: r => cmdS r
+  | 'V' :: ' ' :: r => cmdV r
   | 'L' :: ' ' :: r => cmdL r
   | ['F'] => cmdF
   | ['E'] => cmdE
